@@ -79,3 +79,17 @@ def predicted_edges(doc, mem_links, rank):
         pdo = do if do >= 0 else R.order_offset(sems[rd], "in")
         out.append(((rs, pso), (rd, pdo)))
     return out
+
+
+class NotJson(ValueError):
+    pass
+
+
+def strict_loads(text):
+    """RFC 8259 JSON: Python's json module accepts NaN / Infinity / -Infinity tokens by default; a
+    specification-conformant reader does not."""
+    def bad(tok):
+        raise NotJson(f"non-JSON token {tok}")
+    if isinstance(text, (bytes, bytearray)):
+        text = text.decode("utf-8")
+    return json.loads(text, parse_constant=bad)
